@@ -175,7 +175,7 @@ Proof.
   - exact U1.
   - intros k cv Hin. apply U2. apply (Permutation_in _ Hp'). exact Hin.
   - intros k cv Hin. apply U2d. apply (Permutation_in _ Hp'). exact Hin.
-  - intros k v Hl. destruct (U3 _ _ Hl) as [Hin|(H2 & H3 & H5 & kc & cv & H6 & H7)].
+  - intros k v Hl. destruct (U3 _ _ Hl) as [Hin|(H2 & H3 & H4 & H5 & kc & cv & H6 & H7)].
     + left. apply (Permutation_in _ Hp). exact Hin.
     + right. repeat (split; [assumption|]). exists kc, cv. split; [apply (Permutation_in _ Hp); exact H6|exact H7].
   - intros k kc cv Hk Hin. apply U4; [exact Hk|apply (Permutation_in _ Hp'); exact Hin].
@@ -188,7 +188,7 @@ Proof. intros H1 H2 H3. apply covered_spec. exists t, e. auto. Qed.
 Lemma upd_WF i c vw upd : WFC c -> upd_spec i c vw upd -> WF upd.
 Proof.
   intros [[Hn Hk] Hwf] [U1 U2 U2d U3 U4]. split; [exact U1|]. intros k v Hin. apply (in_lookup _ _ _ U1) in Hin.
-  destruct (U3 _ _ Hin) as [H|(H2 & H3 & H5 & kc & cv & H6 & H7 & H8)]; [apply Hk; exact H|].
+  destruct (U3 _ _ Hin) as [H|(H2 & H3 & H4 & H5 & kc & cv & H6 & H7 & H8)]; [apply Hk; exact H|].
   split; [auto|]. apply (Below_proper _ _ H8). destruct (Hk _ _ H6) as [_ Hp]. apply proper_ne in Hp. tauto.
 Qed.
 
@@ -198,7 +198,7 @@ Proof. intros [U1 U2 U2d U3 U4] Hl Hd. destruct (U3 _ _ Hl) as [H|(_ & H & _)]; 
 Lemma upd_tomb i c vw upd t e : upd_spec i c vw upd -> lookup t upd = Some e -> pv_deleted e = true ->
   exists kc cv, In (kc, cv) c /\ pv_deleted cv = true /\ (t = kc \/ Below t kc).
 Proof.
-  intros [U1 U2 U2d U3 U4] Hl Hd. destruct (U3 _ _ Hl) as [H|(_ & _ & _ & kc & cv & H6 & H7 & H8)].
+  intros [U1 U2 U2d U3 U4] Hl Hd. destruct (U3 _ _ Hl) as [H|(_ & _ & _ & _ & kc & cv & H6 & H7 & H8)].
   - exists t, e. auto.
   - exists kc, cv. auto.
 Qed.
@@ -227,7 +227,7 @@ Qed.
 Lemma upd_none_transfer i c vw u1 u2 k : upd_spec i c vw u1 -> upd_spec i c vw u2 -> lookup k u1 = None -> lookup k u2 = None.
 Proof.
   intros [A1 A2 A2d A3 A4] [B1 B2 B2d B3 B4] H. destruct (lookup k u2) as [v|] eqn:E; [|reflexivity]. exfalso.
-  destruct (B3 _ _ E) as [Hin|(_ & _ & H5 & kc & cv & H6 & H7 & H8)].
+  destruct (B3 _ _ E) as [Hin|(_ & _ & _ & H5 & kc & cv & H6 & H7 & H8)].
   - destruct (pv_deleted v) eqn:Ed.
     + destruct (A2d _ _ Hin Ed) as (v' & Hv' & _). congruence.
     + rewrite (A2 _ _ Hin Ed) in H. discriminate.
@@ -261,17 +261,35 @@ Proof.
 Qed.
 
 (** * The recorded applied values versus the device *)
+Lemma va_WF inl m : WF inl -> WF m -> WF (overlay inl m).
+Proof. intros Hinl Hm. apply WF_overlay; assumption. Qed.
+
+Lemma va_m inl m k e : WF m -> lookup k m = Some e -> lookup k (overlay inl m) = Some e.
+Proof. intros Hm H. rewrite (overlay_lookup m inl k (proj1 Hm)), H. reflexivity. Qed.
+
+(* [va]: the values the recording loop starts from (the loaded applied values [overlay inl m] for the apply; the loaded view
+   as mutated by AddDeleteChildren for the commit).  It holds the stored map [m], except where AddDeleteChildren marked. *)
 Section Apply.
-  Context (i : N) (inl m vw ch upd upd' l : cmap).
-  Context (Hinl : WF inl) (Hm : WF m) (Hnlb : no_live_below (overlay inl m) = true)
+  Context (i : N) (m va vw ch upd upd' l : cmap).
+  Context (Hva : WF va) (Hm : WF m) (Hnlb : no_live_below va = true)
+          (Hvam : forall k e, lookup k m = Some e ->
+                    lookup k va = Some e \/
+                    (In k (paths vw) /\ exists kc cv, In (kc, cv) ch /\ pv_deleted cv = true /\ Below k kc))
           (Hch : WFC ch) (Hic : idx_compat m ch = true)
           (Hu : upd_spec i ch vw upd) (Hu' : upd_spec i ch vw upd') (Hl : Permutation l upd').
 
-  Lemma va_WF : WF (overlay inl m).
-  Proof. apply WF_overlay; assumption. Qed.
-
-  Lemma va_m k e : lookup k m = Some e -> lookup k (overlay inl m) = Some e.
-  Proof. intros H. rewrite (overlay_lookup m inl k (proj1 Hm)), H. reflexivity. Qed.
+  (* a key of the stored map that the updated change values do not hold is held by [va] with the stored value *)
+  Lemma va_m_none k e : lookup k m = Some e -> lookup k upd' = None -> lookup k va = Some e.
+  Proof.
+    intros H E0. destruct (Hvam _ _ H) as [Hv|(Hp & kc & cv & H6 & H7 & H8)]; [exact Hv|].
+    exfalso. exact (ui_kids _ _ _ _ _ Hu' _ _ _ Hp H6 H7 H8 E0).
+  Qed.
+  (* ... and so is a live value of the change *)
+  Lemma va_m_live k e v : lookup k m = Some e -> In (k, v) ch -> pv_deleted v = false -> lookup k va = Some e.
+  Proof.
+    intros H Hin Hlv. destruct (Hvam _ _ H) as [Hv|(Hp & kc & cv & H6 & H7 & H8)]; [exact Hv|].
+    exfalso. exact (proj2 Hch _ _ _ _ Hin Hlv H6 H7 H8).
+  Qed.
 
   Lemma l_ND : ND l.
   Proof. apply (Permutation_NoDup (Permutation_map fst (Permutation_sym Hl))). apply (upd_WF _ _ _ _ Hch Hu'). Qed.
@@ -287,33 +305,33 @@ Section Apply.
              (proj2 (proj2 Hw _ _ H3)) E).
   Qed.
 
-  Lemma Xc_WF : WF (act_fold l (overlay inl m)).
-  Proof. apply act_fold_WF; [apply va_WF|apply l_KO]. Qed.
+  Lemma Xc_WF : WF (act_fold l va).
+  Proof. apply act_fold_WF; [exact Hva|apply l_KO]. Qed.
 
   Lemma Xc_lookup k :
-    lookup k (act_fold l (overlay inl m)) =
+    lookup k (act_fold l va) =
     match lookup k upd' with
     | Some v => Some v
-    | None => match lookup k (overlay inl m) with
+    | None => match lookup k va with
               | Some e => if pv_deleted e && dropb upd' k then None else Some e
               | None => None
               end
     end.
   Proof.
-    rewrite (act_fold_lookup l _ k va_WF l_ND l_KO l_NTA), (lookup_perm _ _ k Hl l_ND).
+    rewrite (act_fold_lookup l _ k Hva l_ND l_KO l_NTA), (lookup_perm _ _ k Hl l_ND).
     unfold dropb. rewrite (existsb_perm _ _ _ Hl). reflexivity.
   Qed.
 
   (* a live value of the change is recorded, and nothing recorded covers it *)
   Lemma ch_live_Xc p v : In (p, v) ch -> pv_deleted v = false ->
-    lookup p (act_fold l (overlay inl m)) = Some v /\ covered (act_fold l (overlay inl m)) p = false.
+    lookup p (act_fold l va) = Some v /\ covered (act_fold l va) p = false.
   Proof.
     intros Hin Hd. pose proof (ui_ch _ _ _ _ _ Hu' _ _ Hin Hd) as Hp. split; [rewrite Xc_lookup, Hp; reflexivity|].
     destruct (covered _ p) eqn:E; [|reflexivity]. exfalso. apply covered_spec in E. destruct E as (t & e & Ht & Hde & Hb).
     pose proof (proj2 (proj2 Xc_WF _ _ Ht)) as Hpt. apply (in_lookup _ _ _ (proj1 Xc_WF)) in Ht. rewrite Xc_lookup in Ht.
     destruct (lookup t upd') as [e0|] eqn:E0.
     - injection Ht as ->. exact (upd_not_below i ch vw upd' p v t e Hch Hu' Hin Hd E0 Hde Hpt Hb).
-    - destruct (lookup t (overlay inl m)) as [e1|]; [|discriminate].
+    - destruct (lookup t va) as [e1|]; [|discriminate].
       destruct (pv_deleted e1 && dropb upd' t) eqn:Ec; [discriminate|]. injection Ht as ->. rewrite Hde in Ec. cbn in Ec.
       assert (dropb upd' t = true); [|congruence]. unfold dropb. apply existsb_exists. exists (p, v). cbn.
       split; [apply lookup_in; exact Hp|]. rewrite Hd, Hb. reflexivity.
@@ -322,11 +340,11 @@ Section Apply.
   (* the device side, stated on the lookup tables *)
   Definition dev_side (p x : str) : Prop :=
     lvp upd p x \/
-    (lvp (overlay inl m) p x /\
+    (lvp va p x /\
      (forall t v, lookup t upd = Some v -> pv_deleted v = true -> covered upd t = false -> p <> t /\ is_path_below p t = false) /\
      (forall x', ~ lvp upd p x')).
 
-  Lemma dev_side_sound p x : dev_side p x <-> lvp (act_fold l (overlay inl m)) p x.
+  Lemma dev_side_sound p x : dev_side p x <-> lvp (act_fold l va) p x.
   Proof.
     pose proof (upd_WF _ _ _ _ Hch Hu) as Hwu. pose proof (upd_WF _ _ _ _ Hch Hu') as Hwu'.
     split.
@@ -343,7 +361,7 @@ Section Apply.
             apply (upd_ch_uncovered i ch vw upd p v' Hch Hu); [apply (upd_live _ _ _ _ _ _ Hu E Ed)|exact Ed]. }
         pose proof (upd_none_transfer _ _ _ _ _ _ Hu Hu' Hup) as Hup'.
         exists v. split; [rewrite Xc_lookup, Hup', H1, H2; reflexivity|]. split; [exact H2|]. split; [exact H3|].
-        destruct (covered (act_fold l (overlay inl m)) p) eqn:E; [|reflexivity]. exfalso. apply covered_spec in E. destruct E as (t & e & Ht & Hde & Hb).
+        destruct (covered (act_fold l va) p) eqn:E; [|reflexivity]. exfalso. apply covered_spec in E. destruct E as (t & e & Ht & Hde & Hb).
         apply (in_lookup _ _ _ (proj1 Xc_WF)) in Ht. rewrite Xc_lookup in Ht.
         destruct (lookup t upd') as [e0|] eqn:E0.
         * injection Ht as ->. destruct (upd_tomb_transfer _ _ _ _ _ _ _ Hu' Hu E0 Hde) as (e' & He' & Hde').
@@ -355,7 +373,7 @@ Section Apply.
              eapply Below_trans; [|apply (below_spec _ _ Hp'); exact Hb'].
              apply (below_spec _ _ (proj2 (KO_lookup _ _ _ (proj2 Hwu) He'))). exact Hb.
           -- destruct (Hnd t e' He' Hde' Ec) as [_ Hx]. congruence.
-        * destruct (lookup t (overlay inl m)) as [e1|] eqn:E1; [|discriminate].
+        * destruct (lookup t va) as [e1|] eqn:E1; [|discriminate].
           destruct (pv_deleted e1 && dropb upd' t); [discriminate|]. injection Ht as ->.
           rewrite (cov_intro _ t e p (lookup_in _ _ _ E1) Hde Hb) in H4. discriminate.
     - intros (v & H1 & H2 & H3 & H4). rewrite Xc_lookup in H1. destruct (lookup p upd') as [v0|] eqn:E0.
@@ -363,22 +381,22 @@ Section Apply.
         split; [apply (ui_ch _ _ _ _ _ Hu _ _ Hin H2)|]. split; [exact H2|]. split; [exact H3|].
         apply (upd_ch_uncovered i ch vw upd p v Hch Hu Hin H2).
       + right. pose proof (upd_none_transfer _ _ _ _ _ _ Hu' Hu E0) as Hup.
-        destruct (lookup p (overlay inl m)) as [e1|] eqn:E1; [|discriminate].
+        destruct (lookup p va) as [e1|] eqn:E1; [|discriminate].
         destruct (pv_deleted e1 && dropb upd' p); [discriminate|]. injection H1 as ->. split; [|split].
         * exists v. split; [exact E1|]. split; [exact H2|]. split; [exact H3|].
-          apply (nlb_spec _ _ _ (proj1 va_WF) Hnlb E1 H2).
+          apply (nlb_spec _ _ _ (proj1 Hva) Hnlb E1 H2).
         * intros t e Ht Hde Hct. split; [intros ->; congruence|].
           destruct (is_path_below p t) eqn:Eb; [|reflexivity]. exfalso.
           destruct (upd_tomb_transfer _ _ _ _ _ _ _ Hu Hu' Ht Hde) as (e' & He' & Hde').
-          assert (Hx : lookup t (act_fold l (overlay inl m)) = Some e') by (rewrite Xc_lookup, He'; reflexivity).
+          assert (Hx : lookup t (act_fold l va) = Some e') by (rewrite Xc_lookup, He'; reflexivity).
           rewrite (cov_intro _ t e' p (lookup_in _ _ _ Hx) Hde' Eb) in H4. discriminate.
         * intros x' (v' & Hv' & _). congruence.
   Qed.
 
   (* store(): what is written back stands for the same live leaves *)
   Lemma store_side_i k v :
-    lookup k (act_fold l (overlay inl m)) = Some v -> covered (act_fold l (overlay inl m)) k = false ->
-    exists v', lookup k (overlay [] (store_write m (act_fold l (overlay inl m)))) = Some v' /\ same_content v' v = true.
+    lookup k (act_fold l va) = Some v -> covered (act_fold l va) k = false ->
+    exists v', lookup k (overlay [] (store_write m (act_fold l va))) = Some v' /\ same_content v' v = true.
   Proof.
     intros Hk Hc. destruct (store_write_spec m _ Xc_WF Hm) as [Hw Hs].
     rewrite (overlay_lookup _ [] k (proj1 Hw)), Hs. unfold sw_val. rewrite Hk, Hc.
@@ -386,28 +404,28 @@ Section Apply.
     destruct (pv_index v =? pv_index e) eqn:Ei; [|exists v; split; [reflexivity|apply same_content_refl]].
     exists e. split; [reflexivity|]. apply N.eqb_eq in Ei. rewrite Xc_lookup in Hk.
     destruct (lookup k upd') as [v0|] eqn:E0.
-    - injection Hk as ->. destruct (ui_cases _ _ _ _ _ Hu' _ _ E0) as [Hin|(_ & _ & _ & kc & cv & H6 & H7 & H8)].
+    - injection Hk as ->. destruct (ui_cases _ _ _ _ _ Hu' _ _ E0) as [Hin|(_ & _ & _ & _ & kc & cv & H6 & H7 & H8)].
       + apply (idx_compat_spec m ch k e v Hic (lookup_in _ _ _ Em)); [|auto].
         apply in_lookup; [apply Hch|exact Hin].
       + exfalso. destruct (ui_del _ _ _ _ _ Hu' _ _ H6 H7) as (tv & Hkc & Htd & _).
-        assert (Hx : lookup kc (act_fold l (overlay inl m)) = Some tv) by (rewrite Xc_lookup, Hkc; reflexivity).
+        assert (Hx : lookup kc (act_fold l va) = Some tv) by (rewrite Xc_lookup, Hkc; reflexivity).
         rewrite (cov_intro _ kc tv k (lookup_in _ _ _ Hx) Htd) in Hc; [discriminate|].
         apply below_spec; [apply (proj2 (proj1 Hch) _ _ H6)|exact H8].
-    - rewrite (va_m _ _ Em) in Hk. destruct (pv_deleted e && dropb upd' k); [discriminate|]. injection Hk as <-.
+    - rewrite (va_m_none _ _ Em E0) in Hk. destruct (pv_deleted e && dropb upd' k); [discriminate|]. injection Hk as <-.
       apply same_content_refl.
   Qed.
 
   Lemma store_side_ii k :
-    lookup k (overlay [] (store_write m (act_fold l (overlay inl m)))) <> None ->
-    lookup k (act_fold l (overlay inl m)) <> None.
+    lookup k (overlay [] (store_write m (act_fold l va))) <> None ->
+    lookup k (act_fold l va) <> None.
   Proof.
     intros H Hk. apply H. clear H. destruct (store_write_spec m _ Xc_WF Hm) as [Hw Hs].
     rewrite (overlay_lookup _ [] k (proj1 Hw)), Hs. unfold sw_val. rewrite Hk.
     destruct (lookup k m) as [e|] eqn:Em; [|destruct (tombb None && _); reflexivity].
-    rewrite Xc_lookup in Hk. destruct (lookup k upd') as [v0|] eqn:E0; [discriminate|]. rewrite (va_m _ _ Em) in Hk.
+    rewrite Xc_lookup in Hk. destruct (lookup k upd') as [v0|] eqn:E0; [discriminate|]. pose proof (va_m_none _ _ Em E0) as Hvk. rewrite Hvk in Hk.
     destruct (pv_deleted e) eqn:Ede; [|discriminate]. cbn [andb] in Hk.
     destruct (dropb upd' k) eqn:Edr; [|discriminate]. cbn [tombb]. rewrite Ede. cbn [andb].
-    assert (Hclr : clrb m (act_fold l (overlay inl m)) (act_fold l (overlay inl m)) k = true); [|rewrite Hclr; reflexivity].
+    assert (Hclr : clrb m (act_fold l va) (act_fold l va) k = true); [|rewrite Hclr; reflexivity].
     unfold dropb in Edr. apply existsb_exists in Edr. destruct Edr as ([w vw'] & Hin & Hx). cbn in Hx.
     apply andb_true_iff in Hx. destruct Hx as [Hlv Hb]. apply negb_true_iff in Hlv.
     pose proof (upd_WF _ _ _ _ Hch Hu') as Hwu'.
@@ -420,27 +438,27 @@ Section Apply.
     assert (Hsc : same_content e' vw' = true).
     { apply (idx_compat_spec m ch w e' vw' Hic (lookup_in _ _ _ Ew)); [|auto]. apply in_lookup; [apply Hch|exact Hinc]. }
     unfold same_content in Hsc. apply andb_true_iff in Hsc. destruct Hsc as [Hsc _]. apply eqb_prop in Hsc.
-    assert (Hcv : covered (overlay inl m) w = false).
-    { apply (nlb_spec _ _ e' (proj1 va_WF) Hnlb (va_m _ _ Ew)). congruence. }
-    rewrite (cov_intro _ k e w (lookup_in _ _ _ (va_m _ _ Em)) Ede Hb) in Hcv. discriminate.
+    assert (Hcv : covered va w = false).
+    { apply (nlb_spec _ _ e' (proj1 Hva) Hnlb (va_m_live _ _ _ Ew Hinc Hlv)). congruence. }
+    rewrite (cov_intro _ k e w (lookup_in _ _ _ Hvk) Ede Hb) in Hcv. discriminate.
   Qed.
 
-  Lemma stored_WF : WF (overlay [] (store_write m (act_fold l (overlay inl m)))).
+  Lemma stored_WF : WF (overlay [] (store_write m (act_fold l va))).
   Proof. apply WF_overlay; [apply WF_nil|]. apply (store_write_spec m _ Xc_WF Hm). Qed.
 
   Lemma store_side p x :
-    lvp (overlay [] (store_write m (act_fold l (overlay inl m)))) p x <-> lvp (act_fold l (overlay inl m)) p x.
+    lvp (overlay [] (store_write m (act_fold l va))) p x <-> lvp (act_fold l va) p x.
   Proof. apply (prune_equiv _ _ Xc_WF stored_WF store_side_i store_side_ii). Qed.
 
   (* what is stored holds no entry beneath a tombstone *)
   Lemma stored_no_entry_below k v :
-    lookup k (overlay [] (store_write m (act_fold l (overlay inl m)))) = Some v ->
-    covered (overlay [] (store_write m (act_fold l (overlay inl m)))) k = false.
+    lookup k (overlay [] (store_write m (act_fold l va))) = Some v ->
+    covered (overlay [] (store_write m (act_fold l va))) k = false.
   Proof.
     intros Hk. rewrite (prune_equiv_cov _ _ Xc_WF stored_WF store_side_i store_side_ii).
     destruct (store_write_spec m _ Xc_WF Hm) as [Hw Hs].
     rewrite (overlay_lookup _ [] k (proj1 Hw)), Hs in Hk. unfold sw_val in Hk.
-    destruct (lookup k (act_fold l (overlay inl m))) as [v0|] eqn:E.
+    destruct (lookup k (act_fold l va)) as [v0|] eqn:E.
     - destruct (covered _ k); [discriminate|reflexivity].
     - exfalso. apply (store_side_ii k); [|exact E]. rewrite (overlay_lookup _ [] k (proj1 Hw)), Hs. unfold sw_val. rewrite E.
       destruct (lookup k m); [|destruct (tombb None && _) in Hk; discriminate].
@@ -484,10 +502,15 @@ Proof.
   destruct (agree_inv d _ (va_WF inl m Hinl Hm) Hag) as [Hnd Hd].
   unfold abs_app.
   apply abs_dev_live.
-  - apply (stored_WF i inl m vw ch upd' l); assumption.
+  - apply (stored_WF i m (overlay inl m) vw ch upd' l); try assumption. apply va_WF; assumption.
   - apply dev_apply_nd. exact Hnd.
-  - intros p x. rewrite (store_side i inl m vw ch upd' l Hinl Hm Hnlb Hch Hic Hu' Hl).
-    rewrite <- (dev_side_sound i inl m vw ch upd upd' l Hinl Hm Hnlb Hch Hu Hu' Hl).
+  - intros p x. pose proof (va_WF inl m Hinl Hm) as Hva.
+    assert (Hvam : forall k e, lookup k m = Some e ->
+              lookup k (overlay inl m) = Some e \/
+              (In k (paths vw) /\ exists kc cv, In (kc, cv) ch /\ pv_deleted cv = true /\ Below k kc))
+      by (intros k e H; left; apply va_m; assumption).
+    rewrite (store_side i m (overlay inl m) vw ch upd' l Hva Hm Hnlb Hvam Hch Hic Hu' Hl).
+    rewrite <- (dev_side_sound i (overlay inl m) vw ch upd upd' l Hva Hnlb Hch Hu Hu' Hl).
     rewrite (dev_apply_in _ _ p x (req_upd_nd upd Hwu)). unfold dev_side. rewrite (req_upd upd p x Hwu), Hd. split.
     + intros [H|(H1 & H2 & H3)]; [left; exact H|right]. split; [exact H1|]. split.
       * intros t v Ht Hdel Hc. destruct (H2 t) as [Ha Hb]; [apply (req_del upd t Hwu); exists v; auto|].
@@ -516,10 +539,15 @@ Proof.
   set (l := permute (rest_code (length ch) ord) upd') in *.
   unfold record_applied. fold upd' l.
   change (fold_left (fun acc '(p, v) => fst (apply_change_to_config acc p v)) l (overlay inl m)) with (act_fold l (overlay inl m)).
-  pose proof (stored_WF i inl m vw ch upd' l Hinl Hm Hch Hu' Hl) as Hw.
-  pose proof (stored_no_entry_below i inl m vw ch upd' l Hinl Hm Hnlb Hch Hic Hu' Hl) as Hne.
+  pose proof (va_WF inl m Hinl Hm) as Hva.
+  assert (Hvam : forall k e, lookup k m = Some e ->
+            lookup k (overlay inl m) = Some e \/
+            (In k (paths vw) /\ exists kc cv, In (kc, cv) ch /\ pv_deleted cv = true /\ Below k kc))
+    by (intros k e H; left; apply va_m; assumption).
+  pose proof (stored_WF i m (overlay inl m) vw ch upd' l Hva Hm Hch Hu' Hl) as Hw.
+  pose proof (stored_no_entry_below i m (overlay inl m) vw ch upd' l Hva Hm Hnlb Hvam Hch Hic Hu' Hl) as Hne.
   assert (HwR : WF (store_write m (act_fold l (overlay inl m)))).
-  { apply store_write_spec; [|exact Hm]. apply (Xc_WF i inl m vw ch upd' l); assumption. }
+  { apply store_write_spec; [|exact Hm]. apply (Xc_WF i (overlay inl m) vw ch upd' l); assumption. }
   rewrite (overlay_nil _ (proj1 HwR)) in Hw, Hne.
   assert (Hneb : no_entry_below (store_write m (act_fold l (overlay inl m))) = true).
   { unfold no_entry_below. apply forallb_forall. intros [k v] Hin. cbn. apply negb_true_iff. apply (Hne k v).
